@@ -1,6 +1,7 @@
 package main
 
 import (
+	"strings"
 	"bufio"
 	"bytes"
 	"encoding/json"
@@ -161,7 +162,14 @@ func frun(args []string) error {
 				sub := wl.NewTrace()
 				var b2 bytes.Buffer
 				res := run.RunWriter(sub, w2, nil, &b2)
-				tr.Add(wl.Ev{"ev": "AttSrc", "call": i + 1, "src": v, "dsize": len(c.Data), "ret": res.Rets[i]})
+				// for the implementation-layer model: the attachment's arguments, the source behaviour in fields, and the writer's
+				// public state after the failing call (how far the output position moved, how many destination writes were made)
+				var skind string
+				var sk int
+				fmt.Sscanf(strings.Replace(v, ":", " ", 1), "%s %d", &skind, &sk)
+				a := run.CallEv(i, c)
+				delete(a, "ev")
+				tr.Add(wl.Ev{"ev": "AttSrc", "call": i + 1, "src": v, "skind": skind, "sk": sk, "dsize": len(c.Data), "ret": res.Rets[i], "a": map[string]any(a), "st": res.States[i]})
 			}
 		}
 		tr.Add(wl.Ev{"ev": "End"})
